@@ -32,7 +32,7 @@ def gen_streams(d, rep, classes, budget, depth, rich, label):
     for i, c in enumerate(classes):
         cfg = d / ("mgcfg-%s-%d.json" % (label, i))
         cfg.write_text(json.dumps({"classes": [c], "budget": budget, "depth": depth, "rich": rich, "export": 1}))
-        jobs.append(lambda cfg=cfg, i=i: lib.tlc("MarshalGen", workers=1, timeout=3000, heap="3g", env={"GEN_CFG": cfg},
+        jobs.append(lambda cfg=cfg, i=i: lib.tlc("MarshalGen", workers=1, coverage=True, timeout=3000, heap="3g", env={"GEN_CFG": cfg},
                                                   tag="mgen-%s-%d" % (label, i)))
     out, seen = [], set()
     for r in bcrun.run_parallel(jobs):
@@ -210,6 +210,10 @@ def gen_part(pid, tier, rep, d):
             if k_ not in seen:
                 seen.add(k_)
                 beh.append(b)
+    fired = rep.extra.get("actions_fired", {})
+    for act in ("EmitLeaf", "EmitInterned2", "EmitStrRef", "EmitRef", "OpenCont", "CloseDict", "Finish"):
+        if not fired.get(act):
+            raise lib.Machinery("vacuous generator run: action %s of MarshalGen never fired" % act)
     bare = bare_records(beh)
     # design-level round trip: the reference reader must accept the reference writer
     ok, err, rej, stats = judge(bare, "self", pid)
